@@ -104,6 +104,8 @@ SUITES = {
     'clone': {'module': 'specs.clone', 'spec_class': 'CloneSpec', 'functions': 'specs.clone', 'files': {}, 'obligations': 'posts'},
     'edifnames': {'module': 'specs.edifnames', 'spec_class': 'EdifNamesSpec', 'functions': 'specs.edifnames', 'files': {}, 'obligations': 'posts'},
     'irns': {'module': 'specs.irns', 'spec_class': 'IRNSSpec', 'functions': 'specs.irns', 'files': {}, 'obligations': 'posts'},
+    'vcomposer': {'module': 'specs.vcomposer', 'spec_class': 'VComposerSpec', 'functions': 'specs.vcomposer', 'files': {}, 'obligations': 'posts'},
+    'ecomposer': {'module': 'specs.ecomposer', 'spec_class': 'EComposerSpec', 'functions': 'specs.ecomposer', 'files': {}, 'obligations': 'posts'},
     'href': {'module': 'specs.href', 'spec_class': 'HRefSpec', 'functions': 'specs.href', 'files': {}, 'obligations': 'posts'},
     'compare': {'module': 'specs.compare', 'spec_class': 'CompareSpec', 'functions': 'specs.compare',
                 'files': {'Comparer': 'spydrnet/compare/compare_netlists.py'}, 'obligations': 'posts'},
